@@ -12,6 +12,7 @@ Theorems/C06.lean); `noRefInTable` is the table obligation `C06_table`.
 -/
 import ReuseVerif.Lemmas.ReportMain
 import ReuseVerif.Lemmas.LintE2E
+import ReuseVerif.Lemmas.CoveredSpec
 import ReuseVerif.Theorems.C06
 
 namespace C01
@@ -139,14 +140,21 @@ theorem C01_e2e_exit_partial (ht : noRefInTable tbl = true) (hg : globalOf c tre
     (h : lintE2E tbl c tree = .ok files r) : r.exit = 0 ↔ TreeCompliant tbl c g tree := by
   rw [(C01_exit r).1]; exact C01_e2e_verdict_partial ht hg hp hne h
 
-/-- The files the composed model reports on are exactly the covered files of the tree (`C03_walk`). -/
+/-- The files the composed model reports on are exactly the covered files of the tree in the flat
+    reading `Spec.Covered`: regular, non-empty files no file rule excludes, below real directories no
+    directory rule excludes (`C03_walk` + the agreement of the two readings). -/
 theorem C01_e2e_files (h : lintE2E tbl c tree = .ok files r) (p : List String) :
-    p ∈ files.map (·.path) ↔ CoveredT c tree p := by
+    p ∈ files.map (·.path) ↔ Covered (c.walk false) "" (toNodes tree) p := by
   obtain ⟨g, _, _, rfl⟩ := lintE2E_ok h
-  simp only [filesOf, coveredFiles, List.map_map, List.mem_map, Function.comp, fileOf, CoveredT]
+  rw [← coveredIn_iff_covered]
+  simp only [filesOf, coveredFiles, List.map_map, List.mem_map, Function.comp, fileOf]
   constructor
   · rintro ⟨q, hq, rfl⟩; exact (C03.C03_walk _ _ _ _).mp hq
   · intro hp; exact ⟨p, (C03.C03_walk _ _ _ _).mpr hp, rfl⟩
+
+/-- `CoveredT`, the form the other statements use, is that same set -/
+theorem C01_e2e_covered (p : List String) : CoveredT c tree p ↔ Covered (c.walk false) "" (toNodes tree) p :=
+  coveredIn_iff_covered _ _ _ _
 
 /-- ... and every one of them ends up either with a file report or among the read errors, nothing else does. -/
 theorem C01_e2e_reported (h : lintE2E tbl c tree = .ok files r) (q : Text) :
